@@ -60,7 +60,7 @@ func (e *Env) resolveSched() *Sched {
 				if callee == nil {
 					continue
 				}
-				if e.Reaches(callee, func(x *ssa.Function) bool { return x == s.Execute }) {
+				if e.ReachesRepo(callee, func(x *ssa.Function) bool { return x == s.Execute }) {
 					launches = append(launches, g)
 				}
 			}
